@@ -88,11 +88,11 @@ theorem walkStep_winv' (gf : FactsR c N tk Sup0) (hEf : ∀ ε, ¬ N → E (.fun
     | value n t x =>
       rw [walkStep_value c rec herr, hu]
       -- the copy
-      have key : SInv c N Sup (copyFrom w.s (some u) (.value n t x)) ∧
-          ((copyFrom w.s (some u) (.value n t x)).get (.value n t x)).isSome = true := by
+      have key : SInv c N Sup (valCopy c w.s (some u) (.value n t x)) ∧
+          ((valCopy c w.s (some u) (.value n t x)).get (.value n t x)).isSome = true := by
         cases u with
         | root =>
-          rw [copyFrom_store_eq _ _ _ rfl]
+          rw [valCopy_store_eq _ _ _ _ rfl rfl]
           rcases hroot' rfl with h | h
           · cases h
           · exact ⟨hS, hS.sup _ h⟩
@@ -108,10 +108,10 @@ theorem walkStep_winv' (gf : FactsR c N tk Sup0) (hEf : ∀ ε, ¬ N → E (.fun
           refine ⟨hS.set _ _ (hS.typed (.out t' x') a ha), ?_⟩
           rw [get_set]; simp
         | func k =>
-          rw [copyFrom_store_eq _ _ _ rfl]
+          rw [valCopy_store_eq _ _ _ _ rfl rfl]
           exact ⟨hS, hP _ (mem_ins_of_hasEdge _ _ _ he)⟩
-      have hinp := RedefineInputs.copyFrom_inputSet w.s (some u) (.value n t x)
-      generalize copyFrom w.s (some u) (.value n t x) = s1 at key hinp
+      have hinp := RedefineInputs.valCopy_inputSet c w.s (some u) (.value n t x)
+      generalize valCopy c w.s (some u) (.value n t x) = s1 at key hinp
       obtain ⟨k1, k2⟩ := key
       refine ⟨⟨fun e h => (no_err herr h).elim, fun _ => ⟨k1.congr rfl rfl, ?_⟩⟩, fun _ => hinp⟩
       obtain ⟨a, ha⟩ := Option.isSome_iff_exists.1 k2
